@@ -101,6 +101,11 @@ func Run(r *ev.Run, scs []Scenario) {
 		if scs[i].Budget > 0 && !r.Thorough() {
 			scs[i].Budget = 10 * time.Minute
 		}
+		// thorough: a scenario that is still running after 8 minutes is cut (exhaustive:false with the
+		// deviation count completed), so that a thorough run of a check stays within hours
+		if r.Thorough() && (scs[i].Budget == 0 || scs[i].Budget > 8*time.Minute) && scs[i].Group == "" {
+			scs[i].Budget = 8 * time.Minute
+		}
 	}
 	byName := map[string]Scenario{}
 	for _, s := range scs {
